@@ -1,4 +1,5 @@
 import DaliVerif.Proofs.SerialRxChunks
+import DaliVerif.Proofs.SerialRxBound
 /-!
 # C19 — serial receivers deframe any byte stream like the protocol's grammar
 
@@ -130,6 +131,62 @@ theorem sci_always_resyncs (o : Oracle) (s : Sci.State) (h : sciIdle s) (bytes :
   have := sci_refines_aux o bytes.length bytes s (Nat.le_refl _) h hb
   exact ⟨this.2, this.1⟩
 
+/-- **resync_bound** (the explicit bound): from *every* receiver state with a frame in progress (`Rel s a`; every
+state reachable by any sequence of reads is such a state, `luba_resync_bound_any_history`), `MAX_LEN - 1` = 23 bytes
+other than 'Y' that raise no handler exception bring the receiver to a frame boundary (no frame in progress).
+The bound is tight and "other than 'Y'" cannot be dropped (examples below): an arbitrary byte may be a 'Y' that opens
+a new frame which swallows what follows. -/
+theorem luba_resync_bound (o : Oracle) (s : Luba.State) (a : AState) (h : Rel s a) (idle : List Nat)
+    (hid : ∀ x ∈ idle, x ≠ 0x59) (hlen : luba_MAX_LEN - 1 ≤ idle.length)
+    (hne : (Luba.runChunk o s idle).err = none) :
+    Rel (Luba.runChunk o s idle).state
+      ⟨[], (Luba.runChunk o s idle).state.rxdt, (Luba.runChunk o s idle).state.txdt⟩ :=
+  idle_boundary o idle s a h hid hlen hne
+
+/-- … and a well-formed frame that follows (valid checksum, payload not malformed for its type) is delivered:
+the items are those of the idle stretch followed by exactly the frame's meaning, and nothing is raised. -/
+theorem luba_resync_delivers (o : Oracle) (s : Luba.State) (a : AState) (h : Rel s a) (idle : List Nat)
+    (hid : ∀ x ∈ idle, x ≠ 0x59) (hlen : luba_MAX_LEN - 1 ≤ idle.length)
+    (hne : (Luba.runChunk o s idle).err = none)
+    (c n : Nat) (p : List Nat) (hn : 1 ≤ n ∧ n ≤ lubaMaxPayload) (hp : p.length = n)
+    (hb : ∀ x ∈ c :: n :: p, x < 256)
+    (hwf : Out.malformed ∉ (lubaMeaning o ⟨(Luba.runChunk o s idle).state.rxdt, (Luba.runChunk o s idle).state.txdt⟩ c p).2) :
+    (Luba.runChunk o s (idle ++ 0x59 :: c :: n :: (p ++ [xorSum (c :: n :: p)]))).err = none ∧
+    (Luba.runChunk o s (idle ++ 0x59 :: c :: n :: (p ++ [xorSum (c :: n :: p)]))).items.map Out.item =
+      (Luba.runChunk o s idle).items.map Out.item ++
+      (lubaMeaning o ⟨(Luba.runChunk o s idle).state.rxdt, (Luba.runChunk o s idle).state.txdt⟩ c p).2 := by
+  have hrel := idle_boundary o idle s a h hid hlen hne
+  have hn20 : n ≤ 20 := hn.2
+  have hdf := deframe_frame o ⟨(Luba.runChunk o s idle).state.rxdt, (Luba.runChunk o s idle).state.txdt⟩
+    c n (xorSum (c :: n :: p)) p [] hn.1 hn20 hp
+  have hnil : ∀ ctx, lubaDeframe o ctx [] = [] := by intro ctx; rw [lubaDeframe.eq_def]
+  rw [if_pos rfl, hnil, List.append_nil] at hdf
+  have hbytes : ∀ x ∈ 0x59 :: c :: n :: (p ++ [xorSum (c :: n :: p)]), x < 256 := by
+    intro x hx
+    simp only [List.mem_cons, List.mem_append, List.mem_nil_iff, or_false] at hx
+    rcases hx with hx | hx | hx | hx | hx
+    · omega
+    · exact hb x (by simp [hx])
+    · exact hb x (by simp [hx])
+    · exact hb x (by simp [hx])
+    · rw [hx]; exact xorSum_lt _ hb
+  obtain ⟨r1, r2⟩ := luba_refines_from o _ _ hrel _ hbytes (by
+    show Out.malformed ∉ lubaDeframe o _ _
+    simp only [List.nil_append]; rw [hdf]; exact hwf)
+  rw [Luba.runChunk_append o idle _ s hne]
+  simp only [List.nil_append] at r2
+  exact ⟨r1, by simp only [List.map_append, r2, hdf]⟩
+
+/-- the same after any history of reads from a fresh receiver, exceptions included -/
+theorem luba_resync_bound_any_history (o : Oracle) (chunks : List (List Nat)) (idle : List Nat)
+    (hid : ∀ x ∈ idle, x ≠ 0x59) (hlen : luba_MAX_LEN - 1 ≤ idle.length)
+    (hne : (Luba.runChunk o (Luba.runChunks o Luba.init chunks).1 idle).err = none) :
+    Rel (Luba.runChunk o (Luba.runChunks o Luba.init chunks).1 idle).state
+      ⟨[], (Luba.runChunk o (Luba.runChunks o Luba.init chunks).1 idle).state.rxdt,
+           (Luba.runChunk o (Luba.runChunks o Luba.init chunks).1 idle).state.txdt⟩ := by
+  obtain ⟨a, h⟩ := chunks_rel o chunks Luba.init ⟨[], 0, 0⟩ rel_init
+  exact idle_boundary o idle _ a h hid hlen hne
+
 /-! ## non-vacuity -/
 
 /-- a well-formed stream with noise, a bad length, an observed ENABLE DEVICE TYPE and a backward frame -/
@@ -141,6 +198,19 @@ example : LubaWellFormed ⟨fun _ _ _ => true, fun _ _ _ => true⟩ ⟨0, 0⟩
 /-- a length byte of 21 is refused by the repaired receiver and a following frame is delivered -/
 example : (Luba.runChunk ⟨fun _ _ _ => true, fun _ _ _ => true⟩ Luba.init
     ([0x59, 0x31, 21] ++ [0x59, 0x2B, 0x03, 0x01, 0x12, 0x00, 0x3B])).items = [.settings 1 0x12] := by
+  decide
+
+/-- the bound 23 is tight: after 'Y' and 22 bytes of value 20 the receiver still waits for the checksum and the
+following frame is lost; after 23 it is delivered -/
+example : (Luba.runChunk ⟨fun _ _ _ => true, fun _ _ _ => true⟩ Luba.init
+    ([0x59] ++ List.replicate 22 20 ++ [0x59, 0x2B, 0x03, 0x01, 0x12, 0x00, 0x3B])).items = [] ∧
+    (Luba.runChunk ⟨fun _ _ _ => true, fun _ _ _ => true⟩ Luba.init
+    ([0x59] ++ List.replicate 23 20 ++ [0x59, 0x2B, 0x03, 0x01, 0x12, 0x00, 0x3B])).items = [.settings 1 0x12] := by
+  decide
+
+/-- "bytes other than 'Y'" cannot be weakened to arbitrary bytes: 23 bytes ending in `'Y' 31 14` swallow the frame -/
+example : (Luba.runChunk ⟨fun _ _ _ => true, fun _ _ _ => true⟩ Luba.init
+    (List.replicate 20 0 ++ [0x59, 0x31, 0x14] ++ [0x59, 0x2B, 0x03, 0x01, 0x12, 0x00, 0x3B])).items = [] := by
   decide
 
 end DaliVerif.Props.C19
